@@ -43,6 +43,9 @@ pub struct Step {
     pub states: usize,
     /// Number of memory blocks.
     pub memory_blocks: usize,
+    /// `Some(code)` marks an entry recorded when the instruction at `pc` failed
+    /// (the other fields are zero in that case).
+    pub error: Option<i32>,
 }
 
 struct Observer {
@@ -68,6 +71,7 @@ pub fn on_instruction(pc: usize, depths: [usize; 7], context: &Context) {
                         depths,
                         states: context.verif_states().len(),
                         memory_blocks: context.verif_memory_blocks().len(),
+                        error: None,
                     });
                 }
                 observer.steps > observer.budget
@@ -79,6 +83,26 @@ pub fn on_instruction(pc: usize, depths: [usize; 7], context: &Context) {
         panic!("{}", BUDGET_EXHAUSTED);
     }
 }
+
+/// Called by the fetch-execute loop when the instruction at `pc` has failed with `code`,
+/// before the error is dispatched to a handler.
+pub fn on_error(pc: usize, code: i32) {
+    OBSERVER.with(|o| {
+        if let Some(observer) = o.borrow_mut().as_mut() {
+            if let Some(trace) = observer.trace.as_mut() {
+                trace.push(Step {
+                    pc,
+                    depths: [0; 7],
+                    states: 0,
+                    memory_blocks: 0,
+                    error: Some(code),
+                });
+            }
+        }
+    });
+}
+
+pub use crate::interpreter::main::verif_nearest_statement;
 
 pub struct HeadlessScreen {}
 
